@@ -55,14 +55,24 @@ ModifyGuard(s, e, v2) ==
   /\ UserAccts(s, e, p, "token_owner_account_a", "token_owner_account_b")
   /\ IF v2 THEN V2Mints(s, e, p) ELSE Id(e, "token_program") = "prog:token"
 
+(* ... and the array is the one that HOLDS the tick: its 88 slots of `spacing' ticks from its start index contain it *)
+Holds(s, id, p, t) == s.ta[id].start <= t /\ t < s.ta[id].start + 88 * s.pool[p].spacing
+
 LiquidityGuard(s, e, v2) ==
+  LET p == Id(e, "whirlpool") x == s.pos[Id(e, "position")] IN
   /\ ModifyGuard(s, e, v2)
-  /\ ArrayOf(s, Id(e, "tick_array_lower"), Id(e, "whirlpool")) /\ ArrayOf(s, Id(e, "tick_array_upper"), Id(e, "whirlpool"))
+  /\ ArrayOf(s, Id(e, "tick_array_lower"), p) /\ ArrayOf(s, Id(e, "tick_array_upper"), p)
+  /\ Holds(s, Id(e, "tick_array_lower"), p, x.lo) /\ Holds(s, Id(e, "tick_array_upper"), p, x.up)
 
 RepositionGuard(s, e) ==
+  LET p == Id(e, "whirlpool") x == s.pos[Id(e, "position")] IN
   /\ ModifyGuard(s, e, TRUE)
-  /\ \A sl \in {"existing_tick_array_lower", "existing_tick_array_upper", "new_tick_array_lower", "new_tick_array_upper"} :
-        ArrayOf(s, Id(e, sl), Id(e, "whirlpool"))
+  /\ \A sl \in {"new_tick_array_lower", "new_tick_array_upper"} : ArrayOf(s, Id(e, sl), p)
+  /\ Holds(s, Id(e, "new_tick_array_lower"), p, e.args.newLo) /\ Holds(s, Id(e, "new_tick_array_upper"), p, e.args.newUp)
+  \* (the arrays of the old range are used only when liquidity is withdrawn from it; for a position without liquidity see
+  \* the recorded predicate unused_old_range_arrays_belong of WpTrace)
+  /\ (x.liq \doteq 0) \/ (/\ ArrayOf(s, Id(e, "existing_tick_array_lower"), p) /\ ArrayOf(s, Id(e, "existing_tick_array_upper"), p)
+                           /\ Holds(s, Id(e, "existing_tick_array_lower"), p, x.lo) /\ Holds(s, Id(e, "existing_tick_array_upper"), p, x.up))
   /\ Id(e, "system_program") = "prog:system"
 
 CollectFeesGuard(s, e, v2) == ModifyGuard(s, e, v2)
@@ -83,6 +93,7 @@ UpdateFeesGuard(s, e) ==
   LET p == Id(e, "whirlpool") IN
   /\ IsPool(s, p) /\ PositionOfPool(s, e, p)
   /\ ArrayOf(s, Id(e, "tick_array_lower"), p) /\ ArrayOf(s, Id(e, "tick_array_upper"), p)
+  /\ Holds(s, Id(e, "tick_array_lower"), p, s.pos[Id(e, "position")].lo) /\ Holds(s, Id(e, "tick_array_upper"), p, s.pos[Id(e, "position")].up)
 
 SwapGuard(s, e, v2) ==
   LET p == Id(e, "whirlpool")
